@@ -167,7 +167,7 @@ vars == <<stage, si, files, cur, ns, ents>>
 Fid(d, n) == d \o "/" \o n
 \* C06: the code base also holds a byte-identical COPY of the first main (a vendored duplicate) in another
 \* directory; the copy may be compiled by other commands than the original, or by none
-HasCopy == Profile = "c06"
+HasCopy == Profile \in {"c06", "sim"}
 CopyId == "inc/m1.c"
 MainId(i) == IF i = 1 THEN "src/m1.c" ELSE IF i = 2 THEN "src/m2.c" ELSE CopyId
 MainName(i) == IF i = 1 THEN "m1.c" ELSE IF i = 2 THEN "m2.c" ELSE "m1.c"
